@@ -1317,7 +1317,7 @@ def run(ck: core.Check):
                     note("sub", f"{t_}: unwrap_* / _is_concrete: model {mo} real {re_}")
                     break
         # the statement of broadcast_dimwise on the real functions
-        n_pairs = n_dims = 0
+        n_pairs = n_dims = n_raise = 0
         for i, a in enumerate(rshapes):
             if a.dims is None:
                 continue
@@ -1325,10 +1325,22 @@ def run(ck: core.Check):
                 if b.dims is None:
                     continue
                 c = state["real_bc"][i * m + j]
+                la, lb = len(a.dims), len(b.dims)
+                if c == "ShapeError":  # broadcast_raises_iff_axis_clash: some right-aligned axis clashes
+                    n_raise += 1
+                    clash = False
+                    for k in range(max(la, lb)):
+                        try:
+                            belem(a[-1 - k].to_simple() if k < la else 1, b[-1 - k].to_simple() if k < lb else 1)
+                        except ShapeError:
+                            clash = True
+                            break
+                    if not clash:
+                        note("bc", f"broadcast_raises_iff_axis_clash: Shape{shapes[i]}.broadcast({shapes[j]}) raises ShapeError but no right-aligned axis clashes")
+                    continue
                 if not isinstance(c, list) or c[0] is None:
                     continue
                 c = c[0]
-                la, lb = len(a.dims), len(b.dims)
                 n_pairs += 1
                 if len(c) != max(la, lb):
                     note("bc", f"broadcast_dimwise: Shape{shapes[i]}.broadcast({shapes[j]}) = {c}: rank is not the larger rank")
@@ -1353,7 +1365,7 @@ def run(ck: core.Check):
             "types": len(real_types),
             "unwrap_outcomes": {k: sum(1 for r in real_ty for nm in ("tensor", "sequence", "optional") if r[nm] == k) for k in ("self", "TypeError")},
             "concrete": sum(1 for r in real_ty if r["concrete"]), "not_concrete": sum(1 for r in real_ty if not r["concrete"]),
-            "broadcast_dimwise_pairs": n_pairs, "broadcast_dimwise_dimensions": n_dims}
+            "broadcast_dimwise_pairs": n_pairs, "broadcast_dimwise_dimensions": n_dims, "raising_pairs_with_a_clashing_axis": n_raise}
 
     if drv and "real_bc" in state:
         guard("type-layer glue (__getitem__, __bool__, unwrap_*, _is_concrete, broadcast dimension-wise)", facet_glue)
